@@ -3,6 +3,9 @@
 use crate::instr::*;
 use hashbrown::hash_map::Entry;
 use hashbrown::HashMap;
+use rayon::prelude::*;
+use std::sync::atomic::{AtomicUsize, Ordering};
+use std::sync::Mutex;
 use std::fmt::Write as _;
 use std::panic::{catch_unwind, AssertUnwindSafe};
 
@@ -74,6 +77,11 @@ pub enum Out {
     Try(String),
     List(Vec<(u64, u64, u64)>),
     Occupied(u64, u64),
+    Raw(String),
+}
+#[allow(non_snake_case)]
+fn OutRaw(s: String) -> Out {
+    Out::Raw(s)
 }
 
 impl Out {
@@ -100,6 +108,7 @@ impl Out {
                 s
             }
             Out::Occupied(s, v) => format!("occupied {} {}", s, v),
+            Out::Raw(s) => s.clone(),
         }
     }
 }
@@ -442,6 +451,125 @@ pub fn do_op<K: KeyT, V: ValT>(m: &mut Map<K, V>, w: &[&str], chk: &mut Vec<Stri
             }
             got.extend(rest);
             Out::List(got)
+        }
+        // ---------------- rayon (C19) ----------------
+        "par_split" => {
+            let dec: Vec<bool> = if w.len() > 1 { w[1].chars().map(|c| c == '1').collect() } else { Vec::new() };
+            let leaves = m.verif_split_leaves(&dec);
+            let mut s = String::from("leaves ");
+            if leaves.is_empty() {
+                s.push('-');
+            }
+            for (i, l) in leaves.iter().enumerate() {
+                if i > 0 {
+                    s.push('|');
+                }
+                if l.is_empty() {
+                    s.push('_');
+                }
+                s.push_str(&l.iter().map(|x| x.to_string()).collect::<Vec<_>>().join(","));
+            }
+            return OutRaw(s);
+        }
+        "par_iter" | "par_keys" | "par_values" => {
+            let pool = rayon::ThreadPoolBuilder::new().num_threads(n(1) as usize).build().unwrap();
+            let mut got: Vec<(u64, u64, u64)> = match w[0] {
+                "par_iter" => pool.install(|| m.par_iter().map(|(k, v)| kvt(k, v)).collect()),
+                "par_keys" => {
+                    let ks: Vec<(u64, u64)> = pool.install(|| m.par_keys().map(|k| (k.id(), k.stamp())).collect());
+                    let mut seq: Vec<(u64, u64)> = m.keys().map(|k| (k.id(), k.stamp())).collect();
+                    let mut ks2 = ks.clone();
+                    ks2.sort();
+                    seq.sort();
+                    if ks2 != seq {
+                        chk.push("par_keys does not deliver the keys exactly once each".into());
+                    }
+                    m.iter().map(|(k, v)| kvt(k, v)).collect()
+                }
+                _ => {
+                    let vs: Vec<u64> = pool.install(|| m.par_values().map(|v| v.val()).collect());
+                    let mut seq: Vec<u64> = m.values().map(|v| v.val()).collect();
+                    let mut vs2 = vs.clone();
+                    vs2.sort();
+                    seq.sort();
+                    if vs2 != seq {
+                        chk.push("par_values does not deliver the values exactly once each".into());
+                    }
+                    m.iter().map(|(k, v)| kvt(k, v)).collect()
+                }
+            };
+            got.sort();
+            Out::List(got)
+        }
+        "par_iter_mut" | "par_values_mut" => {
+            let pool = rayon::ThreadPoolBuilder::new().num_threads(n(1) as usize).build().unwrap();
+            let add = n(2);
+            let visits = AtomicUsize::new(0);
+            if w[0] == "par_iter_mut" {
+                pool.install(|| {
+                    m.par_iter_mut().for_each(|(_, v)| {
+                        visits.fetch_add(1, Ordering::SeqCst);
+                        let nv = v.val().wrapping_add(add);
+                        v.set(nv)
+                    })
+                });
+            } else {
+                pool.install(|| {
+                    m.par_values_mut().for_each(|v| {
+                        visits.fetch_add(1, Ordering::SeqCst);
+                        let nv = v.val().wrapping_add(add);
+                        v.set(nv)
+                    })
+                });
+            }
+            if visits.load(Ordering::SeqCst) != m.len() {
+                chk.push(format!("{} visited {} elements of {}", w[0], visits.load(Ordering::SeqCst), m.len()));
+            }
+            Out::Unit
+        }
+        "into_par_iter" => {
+            let pool = rayon::ThreadPoolBuilder::new().num_threads(n(1) as usize).build().unwrap();
+            let old = std::mem::replace(m, HashMap::with_hasher_in(PlanBuild::default(), Ledger));
+            let got: Vec<(K, V)> = pool.install(|| old.into_par_iter().collect());
+            let mut l: Vec<(u64, u64, u64)> = got.iter().map(|(k, v)| kvt(k, v)).collect();
+            l.sort();
+            held.push(Box::new(got));
+            Out::List(l)
+        }
+        "par_drain" => {
+            // a consumer that stops after `stop` elements (short-circuits the other producers)
+            let pool = rayon::ThreadPoolBuilder::new().num_threads(n(1) as usize).build().unwrap();
+            let stop = n(2) as usize;
+            let count = AtomicUsize::new(0);
+            let got: Mutex<Vec<(K, V)>> = Mutex::new(Vec::new());
+            pool.install(|| {
+                let _ = m.par_drain().try_for_each(|kv| {
+                    let c = count.fetch_add(1, Ordering::SeqCst);
+                    got.lock().unwrap().push(kv);
+                    if c + 1 >= stop {
+                        Err(())
+                    } else {
+                        Ok(())
+                    }
+                });
+            });
+            let got = got.into_inner().unwrap();
+            let mut l: Vec<(u64, u64, u64)> = got.iter().map(|(k, v)| kvt(k, v)).collect();
+            l.sort();
+            held.push(Box::new(got));
+            Out::List(l)
+        }
+        "par_extend" => {
+            let pool = rayon::ThreadPoolBuilder::new().num_threads(n(1) as usize).build().unwrap();
+            let items: Vec<(K, V)> = w[2..]
+                .iter()
+                .map(|t| {
+                    let p: Vec<&str> = t.split(':').collect();
+                    (K::mk(parse_u64(p[0]), parse_u64(p[1])), V::mk(parse_u64(p[2])))
+                })
+                .collect();
+            pool.install(|| m.par_extend(items));
+            Out::Unit
         }
         "len" => Out::Num(m.len() as u128),
         "capacity" => Out::Num(m.capacity() as u128),
